@@ -34,9 +34,9 @@ META = dict(
     engine="H+T",
     technique="explicit-state BFS over listen/remove/subclass/dispatch histories with a registry reference model and replica probing of every target in every state; preemption-bounded thread-schedule exploration of exec-once dispatch",
     design_ref="DESIGN.md §5 C28",
-    level_text="Sequential: every history (depth <=3 quick / <=4 thorough, canonical-state dedupe, listener-name symmetry reduction) of "
+    level_text="Sequential: every history (depth <=6 quick / <=7 thorough, canonical-state dedupe, listener-name symmetry reduction) of "
     "listen(target, fn, insert/once/named/propagate) / remove / contains / create-subclass / create-instance / dispatch / _join / _update "
-    "over classes A, B(A), late-created C(B) and their instances is replayed on the real event system; after every step each dispatch "
+    "over class A and the late-created sub-classes B(A), C(B) and their instances is replayed on the real event system; after every step each dispatch "
     "target is fired on a fresh replica and the exact call sequence (listener, positional-or-named arguments) is compared with the "
     "registry model. Concurrent: all schedules with <=2 (M-gil) / <=1 (M-ft) preemptions (thorough 3/2) of two threads running the "
     "exec-once family and Pool.connect with a first_connect listener; the once-body must run at most once and never in parallel.",
@@ -46,7 +46,7 @@ META = dict(
     rule="state = canonical registry contents (per-class / per-instance ordered listener lists with flags and once-fired marks, existing "
     "classes/instances); transition = one op replayed on the real event system and on the model; T part: one schedule = one transition",
     assumptions=["single event 'ev(x, y)' on a private Events class", "listeners do not register/remove listeners while running"],
-    bounds=dict(quick="H depth<=3; T: gil 2 / ft 1", thorough="H depth<=4; T: gil 3 / ft 2"),
+    bounds=dict(quick="H depth<=6 (canonical-state dedupe); T: gil 2 / ft 1", thorough="H depth<=7; T: gil 3 / ft 2, 3 threads gil 2 / ft 1"),
 )
 SHARD_TIMEOUT = dict(quick=600, thorough=3000)
 
@@ -75,11 +75,8 @@ class World:
         class A:
             dispatch = event.dispatcher(TEvents)
 
-        class B(A):
-            pass
-
         self.TEvents = TEvents
-        self.cls = {"A": A, "B": B}
+        self.cls = {"A": A}
         self.inst = {}
         self.joined = {}
         self.log = []
@@ -142,7 +139,8 @@ def apply_op(w, op):
             _, t, f, flags = op
             return ("ok", event.contains(w.target(t), "ev", listener_for(w, f, flags)))
         if kind == "mkclass":
-            w.cls["C"] = type("C", (w.cls["B"],), {})
+            _, c = op
+            w.cls[c] = type(c, (w.cls[PARENT[c]],), {})
             return ("ok", None)
         if kind == "mkinst":
             _, i = op
@@ -181,10 +179,10 @@ class Model:
     """registry reference model (pure value: copy() is cheap)"""
 
     def __init__(self):
-        self.classes = ["A", "B"]
+        self.classes = ["A"]
         self.insts = []
         self.joins = []
-        self.cl = {"A": [], "B": []}  # class -> ordered registration ids
+        self.cl = {"A": []}  # class -> ordered registration ids
         self.il = {}  # instance -> ordered registration ids
         self.reg = {}  # fn -> dict(target, flags, fired)
         self.prop = {}  # instance -> set of fns registered with propagate there
@@ -265,8 +263,9 @@ class Model:
             r = self.reg.get(f)
             return ("ok", bool(r is not None and r["target"] == t and r["flags"] == flags))
         if kind == "mkclass":
-            self.classes.append("C")
-            self.cl["C"] = list(self.cl["B"])
+            c = op[1]
+            self.classes.append(c)
+            self.cl[c] = list(self.cl[PARENT[c]])
             return ("ok", None)
         if kind == "mkinst":
             self.insts.append(op[1])
@@ -307,8 +306,11 @@ class Model:
             for t in other:
                 ops.append(("remove", t, f, r["flags"]))  # misuse: must raise InvalidRequestError
                 ops.append(("contains", t, f, r["flags"]))
-        if "C" not in self.classes:
-            ops.append(("mkclass",))
+        # sub-classes are created late, one level at a time (a class whose collection does not exist
+        # yet when its own sub-class is first used is the interesting case)
+        for c in ("B", "C"):
+            if c not in self.classes and PARENT[c] in self.classes:
+                ops.append(("mkclass", c))
         for i in INSTS:
             if i not in self.insts and i[0].upper() in self.classes:
                 ops.append(("mkinst", i))
@@ -557,7 +559,7 @@ def shards(tier, seed):
 
 def run_shard(shard, tier, rec):
     if shard[0] == "seq":
-        depth = 5 if tier == "quick" else 6
+        depth = 6 if tier == "quick" else 7
         m0 = Model()
         # fan-out: the first op partitions the space
         first = m0.enabled()
